@@ -46,6 +46,7 @@ func checkC02(ctx *Ctx, r *Report) {
 	c14GoConverterBuffer(ctx, r)
 	c11FifthRound(ctx, r)
 	c02GoConstructorNames(ctx, r)
+	c02FourthHunt(ctx, r)
 	c02RuntimeGuard(ctx, r)
 	c02SortedSearch(ctx, r)
 	c02SortedSearchSelfTest(ctx, r)
@@ -3153,4 +3154,188 @@ func c02GoConstructorNames(ctx *Ctx, r *Report) {
 	r.Count("namespace checks of the Go types jenny", 1)
 	r.Check(checked, "skeleton/go-constructor-names-checked", "golang.RawTypes.generateSchema checks the names of the constructors", fd.Pos(), "the run fails when `New<Name>` is the name of another object",
 		"generateSchema writes `func New<Name>()` for every struct without looking at the other objects: `Pet` and `NewPet` give `type NewPet struct` and `func NewPet() *Pet` — NewPet redeclared in this block, a successful run and a package that does not compile")
+}
+
+// c02FourthHunt:
+//   - the conversions between naming styles are not injective (`user_id` / `userId` → UserId in Go, user_id in Python):
+//     the chains of Go, Python and Java end with StructFieldIdentifiers, configured with the language's own field
+//     naming function, and the pass fails on a duplicate;
+//   - an enum is declared from its first member (string, else integer): the JSON Schema and OpenAPI front-ends refuse
+//     members of any other type (0.5, true, a list) — the loop that builds the members has a type switch whose default
+//     leaves with an error;
+//   - Java writes an alias as `class Alias extends Target`: the function that does so refuses what is not a class.
+func c02FourthHunt(ctx *Ctx, r *Report) {
+	n := 0
+	chains := languageChains(ctx)
+	for _, lang := range []string{"golang", "java", "python"} {
+		chain, ok := chains[lang]
+		if !ok {
+			r.Undecided("anchor lost: CompilerPasses of %s", lang)
+			continue
+		}
+		at := -1
+		for i, name := range chain {
+			if name == "StructFieldIdentifiers" {
+				at = i
+			}
+		}
+		late := ""
+		for i, name := range chain {
+			for _, b := range []string{"AnonymousStructsToNamed", "DisjunctionToType", "DisjunctionOfAnonymousStructsToExplicit", "RemoveIntersections"} {
+				if name == b && i > at {
+					late = name
+				}
+			}
+		}
+		n++
+		r.Check(at >= 0 && late == "", "chains/struct-field-identifiers", lang+" chain checks the identifiers of struct fields", token.NoPos, "StructFieldIdentifiers comes after every pass that creates structs",
+			fmt.Sprintf("the %s chain does not end with the check of field identifiers (position %d, %s comes later): `Root: {user_id: string, userId: int64}` gives two fields UserId in Go (redeclared), `def __init__(self, user_id, user_id)` in Python (SyntaxError) — after a successful run", lang, at, late))
+	}
+	ctx.AllFuncDecls(func(p *packages.Package, fd *ast.FuncDecl, obj *types.Func) {
+		if fd.Recv == nil || fd.Body == nil || obj.Name() != "CompilerPasses" || !strings.HasPrefix(p.PkgPath, modulePath+"/internal/jennies/") {
+			return
+		}
+		ast.Inspect(fd.Body, func(m ast.Node) bool {
+			cl, ok := m.(*ast.CompositeLit)
+			if !ok || namedName(p.TypesInfo.TypeOf(cl)) != "StructFieldIdentifiers" {
+				return true
+			}
+			has := false
+			for _, el := range cl.Elts {
+				if kv, ok := el.(*ast.KeyValueExpr); ok {
+					if k, ok := kv.Key.(*ast.Ident); ok && k.Name == "Identifier" {
+						if id, ok := ast.Unparen(kv.Value).(*ast.Ident); !ok || id.Name != "nil" {
+							has = true
+						}
+					}
+				}
+			}
+			n++
+			r.Check(has, "chains/struct-field-identifiers", ctx.FuncName(obj)+" configures the field check", cl.Pos(), "the pass is given the function that names fields in that language",
+				ctx.FuncName(obj)+" adds StructFieldIdentifiers without Identifier: the pass checks nothing")
+			return true
+		})
+	})
+	if cp, named := ctx.Pkg("internal/ast/compiler"), ctx.LookupType("internal/ast/compiler", "StructFieldIdentifiers"); cp == nil || named == nil {
+		r.Undecided("anchor lost: compiler.StructFieldIdentifiers")
+	} else {
+		info := cp.TypesInfo
+		fails := false
+		for _, fd := range methodsOf(ctx, named) {
+			ast.Inspect(fd.Body, func(m ast.Node) bool {
+				is, ok := m.(*ast.IfStmt)
+				if !ok || is.Init == nil || len(is.Body.List) == 0 {
+					return true
+				}
+				as, ok := is.Init.(*ast.AssignStmt)
+				if !ok || len(as.Rhs) != 1 {
+					return true
+				}
+				ix, ok := ast.Unparen(as.Rhs[0]).(*ast.IndexExpr)
+				if !ok {
+					return true
+				}
+				if _, isMap := info.TypeOf(ix.X).Underlying().(*types.Map); !isMap {
+					return true
+				}
+				if ret, ok := is.Body.List[len(is.Body.List)-1].(*ast.ReturnStmt); ok && len(ret.Results) == 1 {
+					if tv, ok := info.Types[ret.Results[0]]; ok && types.Identical(tv.Type, types.Universe.Lookup("error").Type()) {
+						fails = true
+					}
+				}
+				return true
+			})
+		}
+		n++
+		r.Check(fails, "chains/struct-field-identifiers", "compiler.StructFieldIdentifiers fails on a duplicate identifier", token.NoPos, "an identifier already given leaves with an error",
+			"StructFieldIdentifiers no longer fails when two fields get the same identifier")
+	}
+	// enum members
+	for _, rel := range []string{"internal/jsonschema", "internal/openapi"} {
+		p := ctx.Pkg(rel)
+		if p == nil {
+			r.Undecided("anchor lost: " + rel)
+			continue
+		}
+		info := p.TypesInfo
+		for _, f := range p.Syntax {
+			for _, d := range f.Decls {
+				fd, ok := d.(*ast.FuncDecl)
+				if !ok || fd.Body == nil {
+					continue
+				}
+				ast.Inspect(fd.Body, func(m ast.Node) bool {
+					rs, ok := m.(*ast.RangeStmt)
+					if !ok {
+						return true
+					}
+					builds := false
+					ast.Inspect(rs.Body, func(k ast.Node) bool {
+						if cl, ok := k.(*ast.CompositeLit); ok && namedName(info.TypeOf(cl)) == "EnumValue" {
+							builds = true
+						}
+						return true
+					})
+					if !builds {
+						return true
+					}
+					refuses := false
+					ast.Inspect(rs.Body, func(k ast.Node) bool {
+						ts, ok := k.(*ast.TypeSwitchStmt)
+						if !ok {
+							return true
+						}
+						for _, c := range ts.Body.List {
+							cc := c.(*ast.CaseClause)
+							if cc.List == nil && len(cc.Body) > 0 {
+								if ret, ok := cc.Body[len(cc.Body)-1].(*ast.ReturnStmt); ok && len(ret.Results) > 0 {
+									last := ret.Results[len(ret.Results)-1]
+									if id, ok := ast.Unparen(last).(*ast.Ident); !ok || id.Name != "nil" {
+										refuses = true
+									}
+								}
+							}
+						}
+						return true
+					})
+					n++
+					r.Check(refuses, "frontier/enum-members-typed", rel+"."+fd.Name.Name+" refuses members that are neither strings nor integers", rs.Pos(), "a type switch over the member leaves with an error in its default clause",
+						rel+"."+fd.Name.Name+" declares the enum from its first member and takes the others as they are: {\"type\":\"number\",\"enum\":[0.5,1,2]} gives `type RootSpeed int64` with `RootSpeed05 RootSpeed = 0.5`, {\"type\":\"boolean\",\"enum\":[true]} gives `class Enabled(enum.IntEnum): TRUE = true` — NameError on import")
+					return false
+				})
+			}
+		}
+	}
+	// Java aliases
+	if fn := ctx.LookupMethod("internal/jennies/java", "RawTypes", "formatReference"); fn == nil {
+		r.Undecided("anchor lost: java.RawTypes.formatReference")
+	} else if fd, _ := ctx.DeclOf(fn); fd != nil {
+		refuses := false
+		ast.Inspect(fd.Body, func(m ast.Node) bool {
+			is, ok := m.(*ast.IfStmt)
+			if !ok || len(is.Body.List) == 0 {
+				return true
+			}
+			text := exprString(is.Cond)
+			if is.Init != nil {
+				if as, ok := is.Init.(*ast.AssignStmt); ok && len(as.Rhs) == 1 {
+					text += exprString(as.Rhs[0])
+				}
+			}
+			if !strings.Contains(text, "Resolve") || !strings.Contains(text, "KindStruct") {
+				return true
+			}
+			if ret, ok := is.Body.List[len(is.Body.List)-1].(*ast.ReturnStmt); ok && len(ret.Results) == 2 {
+				if id, ok := ast.Unparen(ret.Results[1]).(*ast.Ident); !ok || id.Name != "nil" {
+					refuses = true
+				}
+			}
+			return true
+		})
+		n++
+		r.Check(refuses, "skeleton/java-alias-extends-classes-only", "java.RawTypes.formatReference refuses aliases of what is not a class", fd.Pos(), "the resolved kind is tested and anything but a struct / intersection leaves with an error",
+			"java.RawTypes.formatReference writes `class Alias extends Target` whatever Target is: `ModeAlias: #Mode` (an enum) gives `class ModeAlias extends Mode` — cannot inherit from final Mode; `NameAlias: Name` (a string) extends a class that is never generated")
+	}
+	r.Count("hunted clauses of well-formed output (4th hunt)", n)
+	r.Floor("hunted clauses of well-formed output (4th hunt)", 10)
 }
